@@ -152,8 +152,8 @@ class Op:
         return onnx.defs.get_schema(self.name, self.modver, self.domain)
 
 
-SUBGRAPH_OPS = {"Scan", "SequenceMap"}  # not generated
-BODY_OPS = {"If", "Loop"}  # generated with Identity bodies over outer-scope values
+SUBGRAPH_OPS: set = set()  # (all four subgraph operators are generated)
+BODY_OPS = {"If", "Loop", "Scan", "SequenceMap"}  # generated with Identity bodies over outer-scope values
 
 
 _SIG_RE = re.compile(r"Signature: ``([\w.]+)@(\d+)::(\w+)``")
@@ -421,7 +421,38 @@ def _gen_body_call(rng, op: Op, force: Optional[str] = None) -> dict:
 
     cond_elem = 9 if family != "illtyped" or rng.random() < 0.5 else rng.choice([1, 7])
     cond_shape = [] if rng.random() < 0.8 else rng.choice([[1], None, [2]])
-    if op.name == "If":
+    if op.name == "SequenceMap":
+        vars_.append({"ty": {"seq": {"t": e, "s": list(base) if family != "unkrank" else None}}, "const": None})
+        seq = len(vars_) - 1
+        add = []
+        for k in range(rng.choice([0, 0, 1, 2])):
+            if rng.random() < 0.5:
+                add.append(pool_var(k))
+            else:
+                vars_.append({"ty": {"seq": {"t": rng.choice([e, 7]), "s": _variant(rng, base)}}, "const": None})
+                add.append(len(vars_) - 1)
+        if family == "illtyped":
+            vars_[seq] = {"ty": {"t": e, "s": list(base)}, "const": None}  # a tensor where a sequence is required
+        outs = [rng.randrange(1 + len(add)) for _ in range(rng.choice([1, 1, 2, 3]))]
+        call = {"module": op.module, "op": "SequenceMap", "vars": vars_, "args": [seq, add], "attrs": {},
+                "sub": {"outs": outs}, "out_count": len(outs), "family": family}
+    elif op.name == "Scan":
+        L0 = rng.choice([3, 4, "T", None])
+        ns, nscan = rng.choice([0, 1, 1, 2]), rng.choice([1, 1, 2])
+        state = [pool_var(k) for k in range(ns)]
+        scan = []
+        for k in range(nscan):
+            sh = _variant(rng, base)
+            if family == "unkrank" and rng.random() < 0.4:
+                scan.append(tvar(e, None))
+            else:
+                d0 = L0 if rng.random() < 0.85 else rng.choice([2, 5])
+                scan.append(tvar(e if rng.random() < 0.8 else 7, [d0] + (sh if sh is not None else [])))
+        souts = [rng.randrange(nscan) for _ in range(rng.choice([0, 1, 1, 2]) if ns else rng.choice([1, 2]))]
+        call = {"module": op.module, "op": "Scan", "vars": vars_, "args": [state + scan],
+                "attrs": {"num_scan_inputs": nscan if family != "illtyped" or rng.random() < 0.5 else nscan + ns + 1},
+                "sub": {"n_state": ns, "scan_outs": souts}, "out_count": ns + len(souts), "family": family}
+    elif op.name == "If":
         cond = tvar(cond_elem, cond_shape)
         n = rng.choice([1, 1, 2, 3])
         then, els = [], []
@@ -894,6 +925,30 @@ def oracle_bodies(call):
                 outs.append(onnx.helper.make_value_info(f"{key}{k}", T(v)))
             out.append((aname, onnx.helper.make_graph(nodes, key, [], outs), list(sub[key])))
         return out
+    if call["op"] == "SequenceMap":
+        seq, add = call["args"]
+        tys = []
+        for v in [seq] + list(add):
+            t = call["vars"][v]["ty"]
+            tys.append(t["seq"] if "seq" in t else t)
+        ins = [onnx.helper.make_value_info(f"b{k}", ty_to_proto(t)) for k, t in enumerate(tys)]
+        nodes = [onnx.helper.make_node("Identity", [f"b{k}"], [f"q{n}"]) for n, k in enumerate(sub["outs"])]
+        outs = [onnx.helper.make_value_info(f"q{n}", ty_to_proto(tys[k])) for n, k in enumerate(sub["outs"])]
+        return [("body", onnx.helper.make_graph(nodes, "body", ins, outs), [])]
+    if call["op"] == "Scan":
+        allv = call["args"][0]
+        ns = sub["n_state"]
+        tys = []
+        for k, v in enumerate(allv):
+            t = call["vars"][v]["ty"]
+            tys.append(t if k < ns else {"t": t["t"], "s": None if t["s"] is None else t["s"][1:]})
+        ins = [onnx.helper.make_value_info(f"b{k}", ty_to_proto(t)) for k, t in enumerate(tys)]
+        nodes = [onnx.helper.make_node("Identity", [f"b{k}"], [f"r{k}"]) for k in range(ns)]
+        outs = [onnx.helper.make_value_info(f"r{k}", ty_to_proto(tys[k])) for k in range(ns)]
+        for n, j in enumerate(sub["scan_outs"]):
+            nodes.append(onnx.helper.make_node("Identity", [f"b{ns + j}"], [f"s{n}"]))
+            outs.append(onnx.helper.make_value_info(f"s{n}", ty_to_proto(tys[ns + j])))
+        return [("body", onnx.helper.make_graph(nodes, "body", ins, outs), [])]
     carried = call["args"][2]
     ins = [onnx.helper.make_tensor_value_info("it", 7, []), onnx.helper.make_tensor_value_info("c_in", 9, [])]
     ins += [onnx.helper.make_value_info(f"b{k}", T(v)) for k, v in enumerate(carried)]
@@ -1103,7 +1158,11 @@ def run_spox(op: Op, call, value_prop: bool = False, vs=None) -> dict:
         if call.get("sub"):
             idn = module_constructors(op.module)["Identity"]
             sub = call["sub"]
-            if op.name == "If":
+            if op.name == "SequenceMap":
+                kwargs["body"] = lambda *b: [idn(b[k]) for k in sub["outs"]]
+            elif op.name == "Scan":
+                kwargs["body"] = lambda *b: [idn(b[k]) for k in range(sub["n_state"])] + [idn(b[sub["n_state"] + j]) for j in sub["scan_outs"]]
+            elif op.name == "If":
                 kwargs["then_branch"] = lambda: [idn(vs[v]) for v in sub["then"]]
                 kwargs["else_branch"] = lambda: [idn(vs[v]) for v in sub["else"]]
             else:
@@ -1260,7 +1319,16 @@ def _variant_of(rng, op: Op, base: dict, vars_: list, facet: str):
             return None
         if base.get("sub"):
             sub = c["sub"]
-            if op.name == "If":
+            if op.name == "SequenceMap":
+                sub["outs"] = sub["outs"][:-1] if len(sub["outs"]) > 1 and rng.random() < 0.5 else sub["outs"] + [sub["outs"][0]]
+                c["out_count"] = len(sub["outs"])
+            elif op.name == "Scan":
+                if sub["scan_outs"] and (sub["n_state"] or len(sub["scan_outs"]) > 1) and rng.random() < 0.5:
+                    sub["scan_outs"] = sub["scan_outs"][:-1]
+                else:
+                    sub["scan_outs"] = sub["scan_outs"] + [0]
+                c["out_count"] = sub["n_state"] + len(sub["scan_outs"])
+            elif op.name == "If":
                 if len(sub["then"]) > 1 and rng.random() < 0.5:
                     sub["then"], sub["else"] = sub["then"][:-1], sub["else"][:-1]
                 else:
@@ -1288,8 +1356,8 @@ def _variant_of(rng, op: Op, base: dict, vars_: list, facet: str):
         T = onnx.defs.OpSchema.AttrType
         names = [a for a, d in sorted(sch.attributes.items())
                  if d.type in (T.INT, T.INTS, T.FLOAT, T.FLOATS, T.STRING) and a != "num_outputs"]
-        if not names or op.name == "Constant":
-            return None
+        if not names or op.name in ("Constant", "Scan"):
+            return None  # (Scan: the hand-written body assumes the default axes / directions)
         a = rng.choice(names)
         try:
             ann = {p.name: str(p.annotation) for p in inspect.signature(constructor(op)).parameters.values()}
